@@ -1,6 +1,7 @@
 package main
 
 import (
+	"bytes"
 	"errors"
 	"fmt"
 	"math"
@@ -584,6 +585,36 @@ func streamBuiltins(o *Out, r *rand.Rand, n int, thorough bool) {
 			o.Fail(Failure{Oracle: "no-panic", Key: "panic:misuse", Input: src, Detail: fmt.Sprint(out.panicVal)})
 		} else if out.err == nil {
 			o.Fail(Failure{Oracle: "misuse-is-error", Key: "misuse-no-error:" + src, Input: src, Detail: fmt.Sprintf("returned %v without error", out.val)})
+		}
+	}
+	// len of something that has no length - pointers of every provenance, functions, numbers behind a pointer - is an error, never a crash
+	for _, c := range []struct {
+		src  string
+		vars map[string]interface{}
+	}{
+		{"a = 1\nlen(&a)", nil}, {"len(&\"abc\")", nil}, {"a = [1, 2]\nlen(&a)", nil}, {"p = new(int64)\nlen(p)", nil}, {"p = make(*string)\nlen(p)", nil}, {"m = {}\nlen(&m)", nil},
+		{"len(func() { })", nil}, {"len(v)", map[string]interface{}{"v": &bytes.Buffer{}}}, {"len(v)", map[string]interface{}{"v": (*int64)(nil)}}, {"len(v)", map[string]interface{}{"v": &struct{ A []int64 }{}}},
+		{"len(v)", map[string]interface{}{"v": new(interface{})}}, {"l = [v]\nlen(l[0])", map[string]interface{}{"v": new(string)}}, {"len(1.5)", nil}, {"len(true)", nil}, {"len(nil)", nil},
+	} {
+		out := runScript(c.src, c.vars, coreEnv)
+		o.Sum.Evaluations++
+		o.Sum.Hist["misuse-len"]++
+		in := c.src
+		if c.vars != nil {
+			in += fmt.Sprintf("   (v is a host value of type %T)", c.vars["v"])
+		}
+		if out.panicked {
+			o.Fail(Failure{Oracle: "no-panic", Key: "panic:misuse", Input: in, Detail: fmt.Sprint(out.panicVal)})
+		} else if out.err == nil {
+			o.Fail(Failure{Oracle: "misuse-is-error", Key: "misuse-no-error:" + c.src, Input: in, Detail: fmt.Sprintf("returned %v without error", out.val)})
+		}
+	}
+	// a pointer to an array has Go's len; anything else is an error, not a crash
+	{
+		out := runScript("len(v)", map[string]interface{}{"v": &[3]int64{1, 2, 3}}, coreEnv)
+		o.Sum.Evaluations++
+		if out.panicked || (out.err == nil && out.val != int64(3)) {
+			o.Fail(Failure{Oracle: "len-is-go-len", Key: "len", Input: "len(v)   (v is a host value of type *[3]int64)", Detail: fmt.Sprintf("got %v err=%v panic=%v", out.val, out.err, out.panicVal)})
 		}
 	}
 	// Go-convertible arguments (int -> string is a Go conversion, nil -> zero value): no crash required, an error is not
